@@ -148,7 +148,9 @@ def check_font_renders(ctx, res, case, out, site="colr1-render", npts=9):
                             {"site": site + "-missing", "case": case["id"], "glyph": i})
                 continue
             unorm = max(1e-6, math.sqrt(abs(user[0] * user[3] - user[1] * user[2])))
-            d_font = 2.5 * max(1.0, unorm) + 0.004 * cfg.upem
+            # reuse may displace an outline by up to reuse_tolerance viewBox units (its documented meaning)
+            tol_vb = max(cfg.reuse_tolerance, 0.0)
+            d_font = 2.5 * max(1.0, unorm) + 0.004 * cfg.upem + tol_vb * s * unorm
             d_svg = d_font / (s * unorm)
             pts = render.grid_points(vb[0], vb[1], vb[2], vb[3], npts, ctx.rng)
             # plus centres of the source leaves' bounds so small shapes are hit
